@@ -105,7 +105,7 @@ def coq_ops(ops):
 
 
 BLOCK_KINDS = (6, 9, 10)
-CALL_KINDS = (1, 4, 5, 6, 7, 8, 9, 10)
+CALL_KINDS = (1, 2, 3, 4, 5, 6, 7, 8, 9, 10)
 
 
 def rand_key(rng, kind):
